@@ -185,17 +185,18 @@ type runConfig struct {
 }
 
 type configRun struct {
-	Name           string
-	Tags           string
-	UseCHA         bool
-	Packages       int
-	Functions      int
-	Reachable      int
-	CGNodes        int
-	Results        []*RuleResult
-	CtlFired       map[string]int
-	LoadErr        string
-	CtlUnavailable string
+	Name            string
+	Tags            string
+	UseCHA          bool
+	Packages        int
+	Functions       int
+	Reachable       int
+	CGNodes         int
+	Results         []*RuleResult
+	CtlFired        map[string]int
+	LoadErr         string
+	CtlUnavailable  string
+	NormalisedRules []string // rules decided on the normalised view
 }
 
 func hashKey(s string) string {
@@ -315,22 +316,20 @@ func runProperty(rc runConfig, prop *Property) int {
 				cr.Reachable++
 			}
 		}
-		for _, rid := range prop.Rules {
+		// evalRule runs one rule on one model and adds the framework's own obligations (anchor floor, positive controls)
+		evalRule := func(mm *Model, rid string, ctlOK bool) (res *RuleResult, fired int, clean bool) {
 			r := rules[rid]
-			if r == nil {
-				continue
-			}
-			res := &RuleResult{Rule: rid}
+			res = &RuleResult{Rule: rid}
 			func() {
 				defer func() {
 					if p := recover(); p != nil {
 						res.undecided("checker-panic", "-", "the rule implementation panicked", fmt.Sprint(p))
 					}
 				}()
-				r.Run(m, res)
+				r.Run(mm, res)
 			}()
-			cr.Results = append(cr.Results, res)
 			real := 0
+			clean = true
 			for i := range res.Obligations {
 				o := &res.Obligations[i]
 				if strings.Contains(o.Key, "zzVerifPosctl") {
@@ -338,32 +337,78 @@ func runProperty(rc runConfig, prop *Property) int {
 				}
 				if o.Control {
 					if o.Verdict != "holds" {
-						cr.CtlFired[rid]++
+						fired++
 					}
 					continue
 				}
 				real++
-				k := o.Rule + "|" + o.Key + "|" + o.Verdict
-				if !seenObl[k] {
-					seenObl[k] = true
-					allObl = append(allObl, *o)
+				if o.Verdict != "holds" {
+					clean = false
 				}
 			}
 			if real < r.Floor {
 				res.undecided("anchor-floor", "-", fmt.Sprintf("rule %s matched %d instances, fewer than the %d confirmed by hand", rid, real, r.Floor),
 					"anchors no longer resolve; the rule would pass vacuously")
-				o := res.Obligations[len(res.Obligations)-1]
-				allObl = append(allObl, o)
+				clean = false
 			}
 			need := r.MinCtl
 			if need == 0 {
 				need = len(r.Ctl)
 			}
-			if ctlAvailable && cr.CtlFired[rid] < need {
-				res.undecided("positive-control", "-", fmt.Sprintf("rule %s flagged %d of %d positive controls", rid, cr.CtlFired[rid], need),
+			if ctlOK && fired < need {
+				res.undecided("positive-control", "-", fmt.Sprintf("rule %s flagged %d of %d positive controls", rid, fired, need),
 					"the rule no longer recognises its own seeded violation")
-				o := res.Obligations[len(res.Obligations)-1]
-				allObl = append(allObl, o)
+				clean = false
+			}
+			return
+		}
+		var mNorm *Model
+		normTried := false
+		for _, rid := range prop.Rules {
+			r := rules[rid]
+			if r == nil {
+				continue
+			}
+			res, fired, clean := evalRule(m, rid, ctlAvailable)
+			if !clean {
+				// second chance on the normalised view (one-line pure accessors inlined; behaviour-preserving by construction)
+				if !normTried {
+					normTried = true
+					ov := overlay
+					if !ctlAvailable {
+						ov = nil
+					}
+					if m2, n, err := LoadNormalised(m, LoadOpts{RepoDir: rc.repoDir, Tags: cs.tags, Overlay: ov, UseCHA: cs.cha}); err == nil && n > 0 {
+						mNorm = m2
+					} else if err != nil {
+						fmt.Printf("NOTE: the normalised view (accessors inlined) does not load in configuration %s: %v\n", cs.name, err)
+					}
+				}
+				if mNorm != nil {
+					if res2, fired2, clean2 := evalRule(mNorm, rid, ctlAvailable); clean2 {
+						res2.Notes = append(res2.Notes, fmt.Sprintf("decided on the normalised view (%d calls of one-line pure accessors inlined); as written the rule reported: %s", mNorm.Normalised, summariseNonHolds(res)))
+						fmt.Printf("NOTE: %s holds on the normalised view of the tree (%d accessor calls inlined)\n", rid, mNorm.Normalised)
+						res, fired = res2, fired2
+						cr.NormalisedRules = append(cr.NormalisedRules, rid)
+					}
+				}
+			}
+			cr.CtlFired[rid] = fired
+			cr.Results = append(cr.Results, res)
+			for i := range res.Obligations {
+				o := &res.Obligations[i]
+				if o.Control {
+					continue
+				}
+				k := o.Rule + "|" + o.Key + "|" + o.Verdict
+				if o.Key == "anchor-floor" || o.Key == "positive-control" {
+					allObl = append(allObl, *o)
+					continue
+				}
+				if !seenObl[k] {
+					seenObl[k] = true
+					allObl = append(allObl, *o)
+				}
 			}
 		}
 	}
@@ -443,6 +488,9 @@ func runProperty(rc runConfig, prop *Property) int {
 		if cr.CtlUnavailable != "" {
 			ci["positive_controls_unavailable"] = cr.CtlUnavailable
 		}
+		if len(cr.NormalisedRules) > 0 {
+			ci["rules_decided_on_normalised_view"] = cr.NormalisedRules
+		}
 		cfgInfo = append(cfgInfo, ci)
 	}
 	var selftest map[string]any
@@ -505,4 +553,17 @@ func runProperty(rc runConfig, prop *Property) int {
 		fmt.Printf("  %-9s %v\n", rid, perRule[rid])
 	}
 	return exit
+}
+
+func summariseNonHolds(res *RuleResult) string {
+	var ks []string
+	for _, o := range res.Obligations {
+		if !o.Control && o.Verdict != "holds" {
+			ks = append(ks, o.Key+" ("+o.Verdict+")")
+		}
+	}
+	if len(ks) > 6 {
+		ks = append(ks[:6], "...")
+	}
+	return strings.Join(ks, ", ")
 }
